@@ -469,6 +469,8 @@ class StmtMixin:
                             out.append(ex)
                     elif isinstance(b, VRef) and b.cls is not None and self.find_method(b.cls, '__setitem__') is not None:
                         out.extend(s3 for s3, _ in self.call_repo(s2, self.find_method(b.cls, '__setitem__'), [b, idx, v], {}, node))
+                    elif isinstance(b, VRef) and self.opaque_decl(b) is not None:
+                        out.extend(s3 for s3, _ in self.call_external(s2, '%s.__setitem__' % self.opaque_decl(b).short, [b, idx, v], {}, node))
                     else:
                         self.unsupported(node, 'subscript assignment on %r' % (b,))
             return out
@@ -668,7 +670,33 @@ class StmtMixin:
         return out
 
     def s_With(self, st, n):
-        self.unsupported(n, 'with statement')
+        """`with X as name:` -- the context managers met in the code under contract (files, temporary files) are
+        environment objects: __enter__ returns the object itself, __exit__ does not swallow exceptions (A-WITH);
+        leaving the block is recorded as ('exit_context', object)"""
+        self.reg.assume('A-WITH: context managers are environment objects whose __enter__ returns the object and whose __exit__ lets exceptions pass')
+        states = [st]
+        bound = []
+        for item in n.items:
+            nxt = []
+            for s in states:
+                if s.exc is not None:
+                    nxt.append(s)
+                    continue
+                for s2, v in self.eval(s, item.context_expr):
+                    if s2.exc is None and item.optional_vars is not None:
+                        nxt.extend(self.assign(s2, item.optional_vars, v, n))
+                    else:
+                        nxt.append(s2)
+            states = nxt
+        out = []
+        for s in states:
+            if s.exc is not None:
+                out.append(s)
+                continue
+            for s2 in self.exec_block(s, n.body):
+                s2.log.append(('exit_context',))
+                out.append(s2)
+        return out
 
     # ------------------------------------------------------------------ loops
     def loop_spec(self, kind, node):
